@@ -13,7 +13,11 @@ CASHU_FILES = ["replay/cashu/zz_verif_drivers_test.go"]
 MINT_FILES = ["replay/mint/zz_verif_helpers_test.go", "replay/mint/zz_verif_drivers_test.go"]
 
 # (fn regex, obligation regex, pkg, files, test name, args)
+CLIENT_FILES = ["replay/client/zz_verif_drivers_test.go"]
+
 DRIVERS = [
+    (r"wallet/client\.PostSwap$", r"callsite:json\.Marshal@nodleq", "wallet/client", CLIENT_FILES, "TestVerifReplay_SwapRequestCarriesDLEQ", None),
+    (r"wallet/client\.PostMeltBolt11$", r"callsite:json\.Marshal@nodleq", "wallet/client", CLIENT_FILES, "TestVerifReplay_MeltRequestCarriesDLEQ", None),
     (r"mint\.Mint\)\.Swap$", r"boundary@", "mint", MINT_FILES, "TestVerifReplay_SwapCrashPoint", None),
     (r"mint\.Mint\)\.MintTokens$", r"boundary@", "mint", MINT_FILES, "TestVerifReplay_MintCrashPoint", None),
     (r"mint\.Mint\)\.MeltTokens$", r"boundary@", "mint", MINT_FILES, "TestVerifReplay_MeltCrashPoint", None),
